@@ -16,6 +16,7 @@ import PyhamModel.Model.Realises
 import PyhamModel.Model.Spell
 import PyhamModel.Model.Agg
 import PyhamModel.Model.Session
+import PyhamModel.Model.Oma
 import PyhamModel.Witness
 open Pyham
 
@@ -379,6 +380,11 @@ def runQuery (T : STree) (nm : Naming) (inp : Input) (H? : Option Ham) (q : SExp
     match loadFiltered T nm inp (decFilter r) with
     | .error e => o.put (pfx ++ "load") ("err:" ++ e.toStr)
     | .ok Hf => emitLoad pfx Hf (o.put (pfx ++ "load") "ok")
+  | .list [.atom "oma"], _ =>
+    -- the same file loaded with species_resolve_mode="OMA"
+    match loadOMA T nm inp with
+    | .error e => o.put "oma.load" ("err:" ++ e.toStr)
+    | .ok Ho => emitLoad "oma." Ho (o.put "oma.load" "ok")
   | _, _ => o
 
 def findField (name : String) (xs : List SExp) : List SExp :=
@@ -453,6 +459,8 @@ def runCase (e : SExp) : Array String :=
       | .ok H =>
         let o := o.put "load" "ok"
         let o := o.put "wf" ((if H.wf then "1" else "0") ++ (if H.regExact then "1" else "0") ++ (if H.sizesExact then "1" else "0"))
+        -- the level / event / flag clauses of C02 without the paralog discipline (used on files outside the history domain)
+        let o := o.put "wflit" (if H.tops.all (fun p => p.2.aligned && p.2.eventsOk H.tree && p.2.dup.isNone && !p.2.isGene) then "1" else "0")
         let o := emitLoad "" H o
         -- the loaded family realises its history (C03), evaluated by the executable checker
         let o := (findField "histories" fields).foldl (fun o h =>
